@@ -326,6 +326,46 @@ def decode_real(path, samples, primary):
         return {"exc": type(e).__name__, "ph": []}
 
 
+def _concat_as_contigs(p1, p2, dst):
+    """records of p1 on their contig, records of p2 renamed to contig chr2; header of p1 plus the definitions only p2 has"""
+    with open(p1) as fh:
+        l1 = fh.read().splitlines()
+    with open(p2) as fh:
+        l2 = fh.read().splitlines()
+    h1 = [x for x in l1 if x.startswith("##")]
+    extra = [x for x in l2 if x.startswith("##") and x not in h1 and x.startswith(("##FORMAT", "##INFO", "##FILTER"))]
+    clen = next((x for x in h1 if x.startswith("##contig=<ID=chr1")), "##contig=<ID=chr1,length=100000>")
+    with open(dst, "w") as fo:
+        fo.write("\n".join(h1 + extra + [clen.replace("ID=chr1", "ID=chr2")]) + "\n")
+        fo.write(next(x for x in l1 if x.startswith("#CHROM")) + "\n")
+        for x in l1:
+            if x and not x.startswith("#"):
+                fo.write(x + "\n")
+        for x in l2:
+            if x and not x.startswith("#"):
+                f = x.split("\t")
+                f[0] = "chr2"
+                fo.write("\t".join(f) + "\n")
+
+
+def decode_two_contigs(path, samples, primary):
+    from whatshap.vcf import VcfReader
+    nrec = primary["n"]
+    try:
+        out = {"chr1": [[[] for _ in range(nrec)] for _ in samples], "chr2": [[[] for _ in range(nrec)] for _ in samples]}
+        with VcfReader(path, phases=True) as r:
+            for table in r:
+                ph = out[table.chromosome]
+                for s, name in enumerate(samples):
+                    for v, p in zip(table.variants, table.phases_of(name)):
+                        if p is not None and v.position in primary:
+                            ph[s][primary[v.position]] = {"block": -1 if p.block_id is None else int(p.block_id),
+                                                          "al": [-1 if a is None else int(a) for a in p.phase]}
+        return {"exc": "", "ph1": out["chr1"], "ph2": out["chr2"]}
+    except Exception as e:
+        return {"exc": type(e).__name__, "ph1": [], "ph2": []}
+
+
 def drive(sc):
     H.quiet()
     tmp = H.mktemp("c09-")
@@ -413,7 +453,13 @@ def _drive(sc, tmp):
         else:
             other = "HP" if op["tag"] == "PS" else "PS"
             d1 = phase(cur, op["tag"], op["T"], op["inp"], bool(op.get("snvs")))
-            phase(cur, other, op["T"], op["inp"], bool(op.get("snvs")))       # the twin run with the other tag on the same input
+            ea = evs[-1]
+            d2 = phase(cur, other, op["T"], op["inp"], bool(op.get("snvs")))  # the twin run with the other tag on the same input
+            eb = evs[-1]
+            if d1 is not None and d2 is not None:
+                cat = os.path.join(tmp, f"cat{d1}.vcf")
+                _concat_as_contigs(paths[d1], paths[d2], cat)
+                evs.append({"ev": "Concat", "a": ea["dec"], "b": eb["dec"], "ab": decode_two_contigs(cat, samples, primary)})
             cur = d1
         if cur is None:
             break
